@@ -139,6 +139,41 @@ static void compareConverted(const ConvSnap& b, const ConvSnap& a, Ctx& ctx, con
 	if (a.parentName != b.parentName) fail("conv:parent-node", "parent node is '" + a.parentName + "', before '" + b.parentName + "'");
 }
 
+// "each vertex's bone weights" also live in the partitions (per partition vertex: four weights and four slots into the
+// partition's bone list): every influence a partition stores for a vertex must be an influence the shape reports for it
+static void checkPartitionInfluences(NifFile& nif, NiShape* shape, Ctx& ctx, const std::string& where0) {
+	auto& hdr = nif.GetHeader();
+	auto si = hdr.GetBlock<NiSkinInstance>(shape->SkinInstanceRef());
+	if (!si) return;
+	auto sp = hdr.GetBlock(si->skinPartitionRef);
+	if (!sp) return;
+	std::string where = where0 + " [" + shape->GetBlockName() + " '" + shape->name.get() + "']";
+	uint32_t nbones = si->boneRefs.GetSize();
+	std::vector<std::unordered_map<uint16_t, float>> w(nbones);
+	for (uint32_t b = 0; b < nbones; b++) nif.GetShapeBoneWeights(shape, b, w[b]);
+	size_t pi = 0;
+	for (auto& p : sp->partitions) {
+		size_t n = std::min(p.vertexWeights.size(), std::min(p.boneIndices.size(), p.vertexMap.size()));
+		for (size_t i = 0; i < n; i++) {
+			uint16_t v = p.vertexMap[i];
+			bool any = false;
+			for (uint32_t b = 0; b < nbones && !any; b++) any = w[b].count(v) > 0;
+			if (!any) continue;
+			const float ws[4] = {p.vertexWeights[i].w1, p.vertexWeights[i].w2, p.vertexWeights[i].w3, p.vertexWeights[i].w4};
+			const uint8_t sl[4] = {p.boneIndices[i].i1, p.boneIndices[i].i2, p.boneIndices[i].i3, p.boneIndices[i].i4};
+			for (int k = 0; k < 4; k++) {
+				if (ws[k] <= 2e-3f) continue;
+				if (sl[k] >= p.bones.size()) continue; // (range is C10's subject)
+				uint16_t bone = p.bones[sl[k]];
+				if (bone >= nbones || !w[bone].count(v))
+					ctx.viol("conv:partition-influence", where + ": partition " + std::to_string(pi) + " stores weight " + std::to_string(ws[k]) + " of bone " + std::to_string(bone) + " for vertex " + std::to_string(v) + ", the shape reports no influence of that bone on the vertex");
+			}
+		}
+		pi++;
+	}
+	ctx.probe("partition_influences_checked");
+}
+
 void profile_convert(const json& plan, Ctx& ctx) {
 	auto nif = std::make_unique<NifFile>();
 	setStage("init");
@@ -159,6 +194,12 @@ void profile_convert(const json& plan, Ctx& ctx) {
 			auto& ver = nif->GetHeader().GetVersion();
 			bool toSSE = ver.IsSK();
 			std::vector<ConvSnap> before = captureAll(*nif);
+			if (toSSE)
+				for (auto sh : nif->GetShapes())
+					if (auto si = nif->GetHeader().GetBlock<NiSkinInstance>(sh->SkinInstanceRef()))
+						if (auto sp = nif->GetHeader().GetBlock(si->skinPartitionRef))
+							for (auto& pb : sp->partitions)
+								if (pb.numBones > 80) { ctx.probe("le_partition_with_more_than_80_bones"); break; }
 			if (ctx_probe_strips) ctx.probe("strips_expanded_independently");
 			// weights live in two places in SE files and in one in LE files; they are compared when the source is consistent
 			bool comparable = true;
@@ -204,7 +245,7 @@ void profile_convert(const json& plan, Ctx& ctx) {
 			}
 			for (auto s : nif->GetShapes()) {
 				checkShapeIndices(*nif, s, ctx, where);
-				if (s->IsSkinned()) checkPartitions(*nif, s, ctx, where, true);
+				if (s->IsSkinned()) { checkPartitions(*nif, s, ctx, where, true); checkPartitionInfluences(*nif, s, ctx, where); }
 			}
 		}
 		else if (op == "Restart") {
